@@ -37,11 +37,11 @@ LatMul(lo, hi) == LCMi(lo[2], hi[2])
 TgtOn(lo, hi, Dn) == LET m == LatMul(lo, hi) IN <<lo[1] * (m \div lo[2]) * Dn, hi[1] * (m \div hi[2]) * Dn>>
 NatOn(N, lo, hi)  == LET m == LatMul(lo, hi) IN [k \in 1..Len(N) |-> <<N[k][1] * m, N[k][2] * m>>]
 \* the native cells tile an interval that contains the bin (a model grid covers the observation)
-CoversBin(N, Dn, c, w) ==
-    LET lo == BinLo(c, w)  hi == BinHi(c, w) IN
-    /\ B!OrderedDisjoint(N)
-    /\ \A k \in 1..(Len(N) - 1) : N[k][2] = N[k + 1][1]
-    /\ RLe(Q(N[1][1]), RMul(Q(Dn), lo)) /\ RLe(RMul(Q(Dn), hi), Q(N[Len(N)][2]))
+Tiling(N) == /\ B!OrderedDisjoint(N)
+             /\ \A k \in 1..(Len(N) - 1) : N[k][2] = N[k + 1][1]
+Within(N, Dn, c, w) == /\ RLe(Q(N[1][1]), RMul(Q(Dn), BinLo(c, w)))
+                       /\ RLe(RMul(Q(Dn), BinHi(c, w)), Q(N[Len(N)][2]))
+CoversBin(N, Dn, c, w) == Tiling(N) /\ Within(N, Dn, c, w)
 ModelOnBin(N, f, Dn, c, w) ==
     LET lo == BinLo(c, w)  hi == BinHi(c, w) IN B!Binned(NatOn(N, lo, hi), TgtOn(lo, hi, Dn), f)
 \* the model binned to the observation: element i <-> centre wn[i], width w[i] (and value val[i])
